@@ -418,7 +418,9 @@ class ParametricSweepFactory:
                 "required_external_parameters": list(
                     getattr(cls, "_required_external", ())
                 ),
-                "context_keys": list(getattr(cls, "_from_context_keys", ())),
+                # sorted: variable declaration order is cosmetic and must not leak
+                # into the node semantic id
+                "context_keys": sorted(getattr(cls, "_from_context_keys", ())),
             }
             return {
                 "type": "derive.parameter_sweep",
